@@ -8,8 +8,8 @@ memory_gb = 12
 solver = "kissat"
 function = "DetailedPlacement::place, DetailedPlacement::unplace (detailed_placement.cpp)"
 variants = [
-  {name = "place", enforce = "DetailedPlacement_place", defines = ["H_PLACE"]},
-  {name = "unplace", enforce = "DetailedPlacement_unplace", defines = ["H_UNPLACE"]},
+  {name = "place", safety_tier = "thorough", enforce = "DetailedPlacement_place", defines = ["H_PLACE"]},
+  {name = "unplace", safety_tier = "thorough", enforce = "DetailedPlacement_unplace", defines = ["H_UNPLACE"]},
 ]
 assumptions = ["chain lemma (paper): the local invariant LWF(k) for every cell k and RWF(r) for every row r implies global legality of the rows (cells of a row lie on one chain from rowFirstCell_, ordered, disjoint, inside the row) because widths are positive",
                "the universally quantified invariant is instantiated at the indices the function touches (precondition INV_inst_*); postconditions hold at an arbitrary ghost cell and ghost row"]
